@@ -1,6 +1,6 @@
 """Shared by c13.py and c11.py: the idbm_tool driver, the database-file writer (text format of
 InterrogateDatabase::write), the canonical projection, and the generator of small C++ libraries."""
-import json, os, subprocess
+import json, os, re, subprocess
 from ..common import MachineryError, REPO
 from .. import harness, run, build
 
@@ -35,8 +35,8 @@ def write_idb(path, lib, fj, module="m", ident=0):
     fs = recs("f")
     out.append("%d\n" % len(fs))
     for i, r in fs:
-        name = r["sn"].split("::")[-1]
-        flags = (1 if r["gl"] else 0) | (4 if r.get("method") else 0)
+        name = r["n"]
+        flags = (1 if r["gl"] else 0) | (4 if r.get("method") else 0) | (0x10 if r.get("isget") else 0) | (0x20 if r.get("isset") else 0)
         out.append("%d %s%d %d %s%s%s%s%s\n" % (i, _comp(name), flags, r["cls"], _s(r["sn"]), _v(r["cw"]), _v(r["pw"]),
                                               _s("", "\n"), _s("", "\n")))
     ws = recs("w")
@@ -67,7 +67,8 @@ def write_idb(path, lib, fj, module="m", ident=0):
     es = recs("e")
     out.append("%d\n" % len(es))
     for i, r in es:
-        flags = (1 if r["gl"] else 0) | (2 if r["getter"] else 0) | (4 if r["setter"] else 0)
+        flags = ((1 if r["gl"] else 0) | (2 if r["getter"] else 0) | (4 if r["setter"] else 0) | (8 if r["has"] else 0)
+                 | (0x10 if r["clear"] else 0) | (0x20 if r["del"] else 0) | (0x100 if r["ins"] else 0) | (0x200 if r["getkey"] else 0))
         out.append("%d %s%d %d %d %d %d %d %d %d %d %d %s%s\n" % (
             i, _comp(r["n"]), flags, r["type"], r["getter"], r["setter"], r["has"], r["clear"], r["del"], r["len"],
             r["ins"], r["getkey"], _s(r["sn"]), _s("", "\n")))
@@ -162,28 +163,15 @@ def content_key(content):
 
 # ---------------------------------------------------------------------------------------------
 # generated C++ libraries (real producer: `interrogate`)
-VDEFS = """#ifndef VDEFS_H
-#define VDEFS_H
-#ifdef CPPPARSER
-#define PUBLISHED __published
-#define BEGIN_PUBLISH __begin_publish
-#define END_PUBLISH __end_publish
-#define MAKE_PROPERTY(n, ...) __make_property(n, __VA_ARGS__)
-#define MAKE_SEQ(n, a, b) __make_seq(n, a, b)
-#else
-#undef PUBLISHED
-#undef BEGIN_PUBLISH
-#undef END_PUBLISH
-#undef MAKE_PROPERTY
-#undef MAKE_SEQ
-#define PUBLISHED public
-#define BEGIN_PUBLISH
-#define END_PUBLISH
-#define MAKE_PROPERTY(n, ...)
-#define MAKE_SEQ(n, a, b)
-#endif
-#endif
-"""
+_MACROS = ("MAKE_PROPERTY", "MAKE_PROPERTY2", "MAKE_SEQ", "MAKE_SEQ_PROPERTY", "MAKE_MAP_PROPERTY", "MAKE_MAP_KEYS_SEQ")
+VDEFS = ("#ifndef VDEFS_H\n#define VDEFS_H\n#ifdef CPPPARSER\n#define PUBLISHED __published\n"
+         "#define BEGIN_PUBLISH __begin_publish\n#define END_PUBLISH __end_publish\n"
+         + "".join("#define %s(n, ...) __%s(n, __VA_ARGS__)\n" % (m, m.lower()) for m in _MACROS)
+         + "#else\n#undef PUBLISHED\n#undef BEGIN_PUBLISH\n#undef END_PUBLISH\n"
+         + "".join("#undef %s\n" % m for m in _MACROS)
+         + "#define PUBLISHED public\n#define BEGIN_PUBLISH\n#define END_PUBLISH\n"
+         + "".join("#define %s(n, ...)\n" % m for m in _MACROS)
+         + "#endif\n#endif\n")
 
 
 def _hdr(name, body, includes=()):
@@ -491,12 +479,14 @@ namespace a { namespace b { namespace c {
 namespace a { typedef b::c::S Short; class UsesShort { PUBLISHED: UsesShort(); Short *s(); }; }
 """)
     H["glob0"] = _hdr("glob0", """
+#define UNPUBLISHED_CONSTANT 9
+class Ctx { PUBLISHED: Ctx(); };
+BEGIN_PUBLISH
 #define VERSION_MAJOR 3
 #define VERSION_STRING "3.1"
 #define SCALE 2.5
+#define HALF (1.0 / 2)
 #define ENABLED
-class Ctx { PUBLISHED: Ctx(); };
-BEGIN_PUBLISH
 int add(int a, int b = 1);
 double add(double a, double b);
 Ctx *current(int idx);
@@ -508,10 +498,11 @@ END_PUBLISH
 int not_published(int);
 """)
     H["glob1"] = _hdr("glob1", """
-#define MAX_ITEMS 16
-#define MASK 0xff
 struct Rec { PUBLISHED: int a; short b; char c; };
 BEGIN_PUBLISH
+#define MAX_ITEMS 16
+#define MASK 0xff
+#define RATIO 0.25f
 Rec make_rec(int a, short b, char c);
 int sum(const Rec &r);
 long long wide(long long v, unsigned long long u);
@@ -622,6 +613,70 @@ PUBLISHED:
   static int h(bool b);
   static int h(char c);
   static int h(unsigned int u, long l = 0);
+};
+""")
+    H["map0"] = _hdr("map0", """
+class Dict {
+PUBLISHED:
+  Dict();
+  int get_num_keys() const;
+  int get_key(int n) const;
+  bool has_value(int key) const;
+  double get_value(int key) const;
+  void set_value(int key, double v);
+  void clear_value(int key);
+  double lookup(int key) const;
+  int size() const;
+  MAKE_MAP_PROPERTY(values, has_value, get_value, set_value, clear_value);
+  MAKE_MAP_KEYS_SEQ(values, get_num_keys, get_key);
+  MAKE_MAP_PROPERTY(table, lookup);
+  MAKE_MAP_PROPERTY(ro_values, has_value, get_value);
+  MAKE_MAP_PROPERTY(rw_values, has_value, get_value, set_value);
+  MAKE_MAP_KEYS_SEQ(rw_values, size, get_key);
+};
+""")
+    H["seqp0"] = _hdr("seqp0", """
+class Lst {
+PUBLISHED:
+  Lst();
+  int get_num_items() const;
+  int get_item(int n) const;
+  void set_item(int n, int v);
+  void remove_item(int n);
+  void insert_item(int n, int v);
+  int count() const;
+  int peek(int n) const;
+  MAKE_SEQ_PROPERTY(items, get_num_items, get_item, set_item, remove_item, insert_item);
+  MAKE_SEQ_PROPERTY(ro_items, count, peek);
+  MAKE_SEQ_PROPERTY(rw_items, get_num_items, get_item, set_item);
+  MAKE_SEQ_PROPERTY(rwd_items, count, get_item, set_item, remove_item);
+  MAKE_SEQ(get_items, get_num_items, get_item);
+  MAKE_SEQ(peek_all, count, peek);
+};
+""")
+    H["prop2"] = _hdr("prop2", """
+class Opt {
+PUBLISHED:
+  Opt();
+  bool has_color() const;
+  int get_color() const;
+  void set_color(int c);
+  void clear_color();
+  bool has_size() const;
+  float get_size() const;
+  void set_size(float s);
+  void clear_size();
+  MAKE_PROPERTY2(color, has_color, get_color, set_color, clear_color);
+  MAKE_PROPERTY2(ro_color, has_color, get_color);
+  MAKE_PROPERTY2(size, has_size, get_size, set_size, clear_size);
+  MAKE_PROPERTY(plain_size, get_size, set_size);
+  class Sub {
+  PUBLISHED:
+    Sub();
+    int get_v() const;
+    void set_v(int v);
+    MAKE_PROPERTY(v, get_v, set_v);
+  };
 };
 """)
     H["stat0"] = _hdr("stat0", """
@@ -798,9 +853,10 @@ def raw_to_model(raw):
         return [{"i": x["i"], "r": conv(x)} for x in raw[k]]
     return {
         "w": rec("w", lambda x: dict(n=x["n"], un=x["un"], lib=x["lib"], fn=x["fn"], ret=x["ret"], rvd=x["rvd"], ps=x["ps"])),
-        "f": rec("f", lambda x: dict(sn=x["sn"], lib=x["lib"], gl=bool(x["fl"] & 1), method=bool(x["fl"] & 4), cls=x["cls"],
+        "f": rec("f", lambda x: dict(sn=x["sn"], n=x["n"], isget=bool(x["fl"] & 0x10), isset=bool(x["fl"] & 0x20),
+                                     lib=x["lib"], gl=bool(x["fl"] & 1), method=bool(x["fl"] & 4), cls=x["cls"],
                                      cw=x["cw"], pw=x["pw"])),
-        "t": rec("t", lambda x: dict(tn=x["tn"], n=x["n"], sn=x["sn"], lib=x["lib"], fd=bool(x["fd"]), gl=bool(x["gl"]),
+        "t": rec("t", lambda x: dict(tn=x["tn"], n=x["n"], cn=x["n"].split("<")[0].strip(), sn=x["sn"], lib=x["lib"], fd=bool(x["fd"]), gl=bool(x["gl"]),
                                      outer=x["outer"], wrapped=x["wrapped"], ctors=x["ctors"], dtor=x["dtor"], elems=x["elems"],
                                      methods=x["methods"], mseqs=x["mseqs"], casts=x["casts"],
                                      derivs=[dict(base=d["base"], up=d["up"], down=d["down"]) for d in x["derivs"]],
@@ -838,3 +894,107 @@ def eval_states(states, workdir, name, timeout=900):
     if len(out) != len(states):
         raise MachineryError("IdbState evaluated %d of %d databases" % (len(out), len(states)))
     return out, r
+
+
+# ---------------------------------------------------------------------------------------------
+# port of InterrogateBuilder::hash_string (src/interrogate/interrogateBuilder.cxx); every run asserts that
+# it reproduces the wrapper names interrogate assigns to a control library (c11.py: hash_control)
+def hash_string(name, shift_offset):
+    h, shift = 0, 0
+    for c in name.encode():
+        sc = (c << shift) & 0xffffff
+        if shift > 16:
+            sc |= (c >> (24 - shift)) & 0xff
+        h = (h + sc) & 0xffffff
+        shift = (shift + shift_offset) % 24
+    product = h * 4999
+    h = (product ^ (product >> 24)) & 0xffffff
+    out = ""
+    for _ in range(4):
+        v = h & 0x3f
+        h >>= 6
+        out += (chr(65 + v) if v < 26 else chr(97 + v - 26) if v < 52 else chr(48 + v - 52) if v < 62 else "_")
+    return out
+
+
+# ---------------------------------------------------------------------------------------------
+# ground truth of a header: what its MAKE_* declarations say, by name
+_FORMS = {
+    # macro -> {number of function arguments: fields in argument order}
+    "MAKE_PROPERTY": {1: ["getter"], 2: ["getter", "setter"], 3: ["getter", "setter", "del"]},
+    "MAKE_PROPERTY2": {2: ["has", "getter"], 4: ["has", "getter", "setter", "clear"]},
+    "MAKE_SEQ_PROPERTY": {2: ["len", "getter"], 3: ["len", "getter", "setter"], 4: ["len", "getter", "setter", "del"],
+                          5: ["len", "getter", "setter", "del", "ins"]},
+    "MAKE_MAP_PROPERTY": {1: ["getter"], 2: ["has", "getter"], 3: ["has", "getter", "setter"],
+                          4: ["has", "getter", "setter", "del"]},
+    "MAKE_MAP_KEYS_SEQ": {2: ["len", "getkey"]},
+    "MAKE_SEQ": {2: ["lenf", "elemf"]},
+}
+_EFIELDS = ["getter", "setter", "has", "clear", "del", "ins", "getkey", "len"]
+_TOK = re.compile(r"\b(class|struct|namespace|enum)\b[^;{}()]*\{|\{|\}|\b(%s)\s*\(([^)]*)\)\s*;" % "|".join(_FORMS))
+
+
+def header_truth(text):
+    """[{k:'e'|'s', sn, f, fn}]: for every element / make_seq declared with a MAKE_* macro in a (possibly nested)
+    class of the header, the function each link field must name ('' = the field must be empty)."""
+    scope, props, seqs = [], {}, {}
+    for m in _TOK.finditer(text):
+        tok = m.group(0)
+        if tok == "}":
+            if scope:
+                scope.pop()
+        elif tok == "{":
+            scope.append(None)
+        elif m.group(1):
+            nm = re.match(r"(class|struct|namespace|enum)\s+(?:class\s+)?(\w+)", tok)
+            kind = m.group(1)
+            scope.append((kind, nm.group(2)) if nm and kind in ("class", "struct", "namespace") else None)
+        else:
+            if any(x is None or x[0] == "namespace" for x in scope) or not scope:
+                continue            # not exported / not in a class
+            cls = "::".join(x[1] for x in scope)
+            args = [a.strip() for a in m.group(3).split(",")]
+            name, fns = args[0], args[1:]
+            form = _FORMS[m.group(2)].get(len(fns))
+            if form is None:
+                continue
+            tgt = seqs if m.group(2) == "MAKE_SEQ" else props
+            ent = tgt.setdefault(cls + "::" + name, {})
+            for f, fn in zip(form, fns):
+                ent[f] = cls + "::" + fn
+    out = []
+    for sn, ent in sorted(props.items()):
+        for f in _EFIELDS:
+            out.append(dict(k="e", sn=sn, f=f, fn=ent.get(f, "")))
+    for sn, ent in sorted(seqs.items()):
+        for f in ("lenf", "elemf"):
+            out.append(dict(k="s", sn=sn, f=f, fn=ent[f]))
+    return out
+
+
+# every index-valued field of every record kind: (label, kind, test on a raw record)
+INDEX_FIELDS = (
+    [("element." + f, "e", (lambda r, f=f: r[f] != 0)) for f in ("type", "getter", "setter", "has", "clear", "del", "ins", "getkey", "len")]
+    + [("make_seq." + f, "s", (lambda r, f=f: r[f] != 0)) for f in ("lenf", "elemf")]
+    + [("type." + f, "t", (lambda r, f=f: r[f] != 0)) for f in ("dtor", "outer", "wrapped")]
+    + [("type." + f, "t", (lambda r, f=f: len(r[f]) > 0)) for f in ("ctors", "casts", "methods", "elems", "mseqs", "nested")]
+    + [("type.derivation.base", "t", lambda r: any(d["base"] for d in r["derivs"])),
+       ("type.derivation.upcast", "t", lambda r: any(d["up"] for d in r["derivs"])),
+       ("type.derivation.downcast", "t", lambda r: any(d["down"] for d in r["derivs"])),
+       ("type.enum_values", "t", lambda r: r["nev"] > 0)]
+    + [("wrapper." + f, "w", (lambda r, f=f: r[f] != 0)) for f in ("fn", "ret", "rvd")]
+    + [("wrapper.parameter_types", "w", lambda r: len(r["ps"]) > 0)]
+    + [("function.cls", "f", lambda r: r["cls"] != 0), ("function.c_wrappers", "f", lambda r: len(r["cw"]) > 0),
+       ("function.python_wrappers", "f", lambda r: len(r["pw"]) > 0)]
+    + [("manifest.type", "m", lambda r: r["type"] != 0), ("manifest.getter", "m", lambda r: r["getter"] != 0)]
+)
+
+
+def field_coverage(raws):
+    """label -> number of databases in which the field is non-zero in at least one record."""
+    cov = {lab: 0 for lab, _, _ in INDEX_FIELDS}
+    for raw in raws:
+        for lab, kind, test in INDEX_FIELDS:
+            if any(test(r) for r in raw[kind] if "null" not in r):
+                cov[lab] += 1
+    return cov
